@@ -754,6 +754,26 @@ func (r *Run) guardedBy(g guardSpec) {
 			addScope(sc)
 		}
 	}
+	// the callers of unexported candidate functions are simulated as well, so that the lock level
+	// at which such a helper is called is observed even when the caller itself does not touch a
+	// guarded field any more (its accesses were extracted into the helper)
+	for round := 0; round < 2; round++ {
+		for _, u := range append([]*unit(nil), units...) {
+			if u.scope.Lit != nil || u.fi == nil || u.fi.Obj.Exported() {
+				continue
+			}
+			for _, cs := range r.callSitesOf(u.fi.Obj, false) {
+				sc := cs.Use.Scope
+				if sc == nil || prog.IsTestSupport(cs.Use.Pkg.PkgPath) {
+					continue
+				}
+				for sc.Lit != nil && sc.Parent != nil && !r.litEscapes(sc) {
+					sc = sc.Parent
+				}
+				addScope(sc)
+			}
+		}
+	}
 	lockM := map[string]int32{"Lock": lkWrite, "RLock": lkRead}
 	isMutexCall := func(c *pathsim.Ctx, ev *pathsim.Event) (string, bool) {
 		if ev.Kind != pathsim.EvCall || ev.Call == nil {
@@ -1015,4 +1035,52 @@ func syncCallbackHost(fn *types.Func) bool {
 		return true
 	}
 	return false
+}
+
+// bareReturnsWithResult: for a function with named results, the positions of the bare return
+// statements that some path reaches after the named result idx was assigned a value other than
+// nil (so the return hands that value back). Empty for functions without named results.
+func (r *Run) bareReturnsWithResult(f *prog.FuncInfo, idx int) map[token.Pos]bool {
+	out := map[token.Pos]bool{}
+	rl := f.Decl.Type.Results
+	if rl == nil {
+		return out
+	}
+	var res types.Object
+	k := 0
+	for _, fld := range rl.List {
+		for _, n := range fld.Names {
+			if k == idx {
+				res = f.Pkg.TypesInfo.Defs[n]
+			}
+			k++
+		}
+	}
+	if res == nil {
+		return out
+	}
+	spec := &pathsim.Spec{Step: func(c *pathsim.Ctx, s pathsim.State, ev *pathsim.Event) []pathsim.State {
+		switch ev.Kind {
+		case pathsim.EvAssign:
+			for i, l := range ev.Lhs {
+				if prog.IdentObjPlain(c.Info, l) != res {
+					continue
+				}
+				s.A = 1
+				if len(ev.Rhs) == len(ev.Lhs) {
+					if tv, ok := c.Info.Types[ev.Rhs[i]]; ok && tv.IsNil() {
+						s.A = 0
+					}
+				}
+			}
+			return []pathsim.State{s}
+		case pathsim.EvReturn:
+			if len(ev.Results) == 0 && c.Depth == 0 && s.A == 1 {
+				out[ev.Pos] = true
+			}
+		}
+		return nil
+	}}
+	pathsim.Run(r.P, f.Decl, spec)
+	return out
 }
